@@ -156,13 +156,13 @@ Print Assumptions C09_once_others_wait.
 
 (* PARTIAL.  Full statement (not proved): in every state in which no thread can step, every
    caller has returned or rethrown.  Proved: the thrower stores the value the CAS expects; the
-   status is `running` only while an (always enabled) runner is between its CAS and its store;
+   status is `running` only while a runner is between its CAS and its store;
    a caller whose CAS finds that value becomes the next runner. *)
 Theorem C09_once_retry_after_throw_partial : forall sched ncalls,
   let c := o_run sched ncalls in
   once_after_throw = once_cas_expected /\
   (status (fst c) = once_running ->
-     exists t, orun (fst c) = Some t /\ runner_pc (opc (snd c t)) = true /\ o_enabled (fst c) t (snd c t) = true) /\
+     exists t, orun (fst c) = Some t /\ runner_pc (opc (snd c t)) = true) /\
   (forall t o, opc (snd c t) = Some (OStore false) ->
      status (fst (o_tstep (OONorm o) t (fst c) (snd c t))) = once_cas_expected) /\
   (forall t o, opc (snd c t) = Some OC1 -> status (fst c) = once_cas_expected ->
